@@ -19,12 +19,14 @@ THEOREMS = [
     "Nix.C13.find_mem",
     "Nix.C13.find_once",
     "Nix.C13.find_unlimited",
+    "Nix.C13.reachable_wf",
     "Nix.C13.parent",
     "Nix.C13.parent_source",
     "Nix.C13.parent_block",
     "Nix.C13.referring_inverse",
     "Nix.C13.referring_sources_inverse",
     "Nix.C13.source_referring_inverse",
+    "Nix.C13.referring_once",
 ]
 ASSUMPTIONS = [
     "entities are identified by a key (creation counter) standing for the uuid; uuid4 freshness is assumed",
